@@ -242,4 +242,44 @@ theorem runPair_frame (ops : List (Side × HOp)) : ∀ (a b : Cfg),
     obtain ⟨s, h⟩ := o
     cases s <;> simp [execPair, ih, opsOf, run]
 
+/-! ### sessions: the executor's loop over tasks whose bodies edit the shared configuration -/
+
+/-- one executed task: how it was called, the settings along its namespace path, the environment
+    at its start, and the effective edits its body performs on `context.config` -/
+structure TaskRun where
+  none : Bool
+  cfgs : List KVs
+  environ : List (List Char × List Char)
+  body : List Edit
+
+/-- the body's edits applied to the journal of the shared configuration -/
+def applyEdits (c : Cfg) (es : List Edit) : Cfg :=
+  { c with mods := (journalOf (jOf c) es).mods, dels := (journalOf (jOf c) es).dels }
+
+/-- the configuration after a sequence of tasks (per task: `taskStep`, then the body) -/
+def sessionState (c : Cfg) : List TaskRun → Except CErr Cfg
+  | [] => .ok c
+  | t :: ts => match c.taskStep t.none t.cfgs t.environ with
+    | .error e => .error e
+    | .ok c1 => sessionState (applyEdits c1 t.body) ts
+
+theorem journalOf_append (j : Journal) (a b : List Edit) : journalOf j (a ++ b) = journalOf (journalOf j a) b := by
+  simp [journalOf, List.foldl_append]
+
+theorem jOf_applyEdits (c : Cfg) (es : List Edit) : jOf (applyEdits c es) = journalOf (jOf c) es := rfl
+
+/-- the journal after a session is the journal of all bodies' edits, in execution order: reloading
+    the collection / env levels between tasks never touches it -/
+theorem session_journal (ts : List TaskRun) : ∀ (c c' : Cfg), sessionState c ts = .ok c' →
+    jOf c' = journalOf (jOf c) (ts.flatMap TaskRun.body) := by
+  induction ts with
+  | nil => intro c c' h; simp [sessionState] at h; subst h; rfl
+  | cons t rest ih =>
+    intro c c' h
+    simp only [sessionState] at h
+    split at h
+    · simp at h
+    · rename_i c1 h1
+      rw [ih _ _ h, jOf_applyEdits, taskStep_journal h1, List.flatMap_cons, journalOf_append]
+
 end Inv.Hist
